@@ -16,6 +16,7 @@ typed_bare_tag typed_sound_partial typed_sound_statement_needs_exclusion interp_
            ["Minicbor.C05.int_accessor_exact"] + \
            ["Minicbor.IterThm." + n for n in "drain_definite drain_indefinite arrayIter_is_next_loop mapIter_is_next_loop definite_fused indefinite_not_fused all_is_drain allx_definite_length iterNext_suffix iterNext_suffix_builtin".split()]
 PACKAGES = ["hcore"]
+DEBUG_TWINS = True
 RULE = ("dec <accessor> <encW(tree) ++ suffix>: wire trees = all scalar shapes at every head width and boundary argument, containers of 0..3 "
         "children over {definite at every width, indefinite} x {array, map}, tags, chunked strings, plus seeded random trees to depth 6; "
         "each decoded through every accessor (matching and non-matching).  Oracle (orchestrator, from the tree): matching accessor -> exact "
@@ -176,7 +177,8 @@ def iter_stream(rng, tier):
 
 
 REUSE_WHAT = ["vu8", "vvs", "dq", "bh", "mu", "hm", "a3", "t2", "ou", "s", "int", "tok", "ai1", "mi1", "bi1", "toks3", "probe", "skip", "dt",
-              "x-f64", "x-f32", "x-f16", "x-u64", "x-u8", "x-i32", "x-str", "x-bytes", "x-array", "x-map", "x-tag", "x-bool", "x-char", "x-bytes_iter", "x-str_iter"]
+              "x-f64", "x-f32", "x-f16", "x-u64", "x-u8", "x-i32", "x-str", "x-bytes", "x-array", "x-map", "x-tag", "x-bool", "x-char", "x-bytes_iter", "x-str_iter",
+              "bi0", "si0", "si1", "ai0", "mi0", "bit0"]
 
 
 def judge_reuse(op, impl, model, spec):
@@ -198,14 +200,18 @@ def reuse_stream(rng, tier):
             b"\xfb" + bytes.fromhex("3ff8000000000000"), b"\xfb" + bytes.fromhex("c004000000000001"), b"\xfa" + bytes.fromhex("3fc00000"), b"\xf9\x3e\x00",
             gen.head(0, 2**32, 8), gen.head(1, 70000, 4), gen.head(1, 5), u(23), u(24), t(b"hello"), t("é€".encode()), gen.head(2, 3) + b"\x01\x02\x03",
             b"\x5f\x41\x01\x42\x02\x03\xff", b"\x7f\x61a\x61b\xff", gen.head(6, 55799) + u(1), b"\xf6", b"\xf5", gen.head(4, 3) + u(1),
-            gen.head(4, 2**40, 8) + u(1), b"\x9f" + u(1), gen.head(5, 2**33, 8), b"\x18"]
+            gen.head(4, 2**40, 8) + u(1), b"\x9f" + u(1), gen.head(5, 2**33, 8), b"\x18",
+            # strings that declare more than there is (the last items of an input): 300, 65536, 2^64-1 bytes
+            gen.head(2, 300) + b"\x01\x02", gen.head(3, 65536, 4) + b"ab", gen.head(2, 2**64 - 1, 8) + b"\x01", gen.head(3, 2**63, 8)]
     ops = []
     for _ in range(60 if tier == "quick" else 1500):
         buf, starts = b"", []
         if rng.random() < 0.5:
             buf = b"\xfb" + bytes.fromhex("3ff8000000000000"); starts.append(0)        # an input that BEGINS with a full double / long head
         for _ in range(rng.randint(4, 14)):
-            starts.append(len(buf)); buf += rng.choice(pool)
+            starts.append(len(buf)); buf += rng.choice(pool[:-4])
+        if rng.random() < 0.5:
+            starts.append(len(buf)); buf += rng.choice(pool[-4:])             # a truncated string can only be the last item
         steps = []
         for _ in range(rng.choice([40, 150, 300, 400])):
             pos = rng.choice(starts) if rng.random() < 0.9 else rng.randint(0, len(buf))
